@@ -68,7 +68,11 @@ def region_list():
                     G.rectangle(sz, 'near', False),
                     G.circle_annulus(sz, 'near', False))
     meta = st.sampled_from([{}, {'include': False}, {'text': 'lbl'},
-                            {'include': 0, 'text': 'a b'}])
+                            {'include': 0, 'text': 'a b'},
+                            # characters outside ASCII (a write must not fail
+                            # half-way because of what a label says)
+                            {'text': 'Sgr A\u2605 caf\u00e9',
+                             'label': 'caf\u00e9 \u2605'}])
     return st.lists(st.tuples(reg, meta).map(
         lambda t: dict(t[0], meta=t[1])), min_size=1, max_size=6)
 
@@ -127,6 +131,9 @@ class Matrix(Relation):
                 faults += [('poison', k) for k in range(n)]
                 faults += [('compound', n // 2), ('inexpressible', n - 1)]
                 faults += [('option', o) for o in BAD_OPTIONS[fmt]]
+                # a format name nobody registered / a path whose extension
+                # identifies no format and no format given
+                faults += [('badformat', None), ('noext', None)]
                 for dest in DEST:
                     for overwrite in (False, True):
                         for fault in faults:
@@ -175,6 +182,14 @@ class Matrix(Relation):
         elif kind == 'inexpressible':
             regs.insert(arg + 1, R.RectangleAnnulusPixelRegion(
                 R.PixCoord(3, 4), 2, 5, 1, 4))
+        elif kind == 'badformat':
+            explicit = True
+        elif kind == 'noext':
+            explicit = False
+            newpath = os.path.join(d, 'out.dat')
+            if os.path.lexists(path):
+                os.rename(path, newpath)
+            path = newpath
         elif kind == 'option':
             kw = dict(arg)
             if kw.get('header') == '@unverifiable':
@@ -188,6 +203,8 @@ class Matrix(Relation):
         before = snapshot(path)
         listing_before = sorted(os.listdir(d))
         args = {} if not explicit else {'format': fmt}
+        if kind == 'badformat':
+            args = {'format': 'nonsense'}
         err = None
         try:
             with warnings.catch_warnings():
@@ -228,7 +245,7 @@ class Matrix(Relation):
                          spec=cell)
         else:
             # success: the destination now holds the regions
-            if kind in ('poison',) or (kind == 'option'):
+            if kind in ('poison', 'option', 'badformat', 'noext'):
                 # a write that was given a fault but succeeded: the fault was
                 # not one for this format (e.g. unknown kwargs must raise)
                 ctx.fail(f'{tag} | write succeeds although {fault!r} was '
@@ -287,6 +304,17 @@ class Matrix(Relation):
                 shutil.copyfile(src, reused)
                 variants.append(('content signature at a path that held '
                                  'other files before', reused, {}))
+            # what identifies as nothing is refused, not guessed at
+            junk = os.path.join(d, 'junk.dat')
+            with open(junk, 'wb') as fh:
+                fh.write(SENTINEL)
+            for name, p, a in (('unrelated content, no format', junk, {}),
+                               ('unknown format name', path,
+                                {'format': 'nonsense'})):
+                got, got_err = attempt(p, **a)
+                ctx.check(got_err is not None,
+                          f'read ({name}) | returns regions instead of '
+                          'raising', f'{got!r}'[:200], spec=cell)
             for name, p, a in variants:
                 got, got_err = attempt(p, **a)
                 if want_err is not None:
